@@ -45,8 +45,8 @@ Running == phase = "run" /\ nops < MaxOps
 
 Init == /\ phase = "run" /\ seg = 1 /\ file = [s \in {1} |-> <<>>] /\ buf = <<>> /\ imm = <<>>
         /\ logPtr = 0 /\ flushed = {} /\ ptr = [seg |-> 0, segIndex |-> 0, trunc |-> 0]
-        /\ rlog = <<>> /\ rtrunc = 0 /\ rhs = 0 /\ acked = {} /\ nput = 0
-        /\ recLsm = {} /\ recLog = <<>> /\ recFirst = 1 /\ recHS = 0 /\ recFail = FALSE
+        /\ rlog = <<>> /\ rtrunc = 0 /\ rhs = [term |-> 0, commit |-> 0] /\ acked = {} /\ nput = 0
+        /\ recLsm = {} /\ recLog = <<>> /\ recFirst = 1 /\ recHS = [term |-> 0, commit |-> 0] /\ recFail = FALSE
         /\ gcRaft = FALSE /\ badRemoval = FALSE /\ nops = 0 /\ hist = <<>>
 
 SyncBuf == /\ file' = [file EXCEPT ![seg] = @ \o buf] /\ buf' = <<>>
@@ -76,12 +76,13 @@ RaftAppend(from, n, term) ==
     /\ Log([op |-> "RaftAppend", from |-> from, n |-> n, term |-> term])
     /\ UNCHANGED <<phase, seg, imm, logPtr, flushed, rtrunc, rhs, acked, nput, gcRaft, badRemoval>> /\ UNCH_REC
 
-RaftHS(term) ==
-    /\ Running /\ term > rhs
-    /\ file' = [file EXCEPT ![seg] = @ \o buf \o <<[t |-> "hs", term |-> term]>>] /\ buf' = <<>>
-    /\ rhs' = term
+\* SetHardState: a new term (vote) or only a higher commit index; both are one hard-state record
+RaftHS(term, commit) ==
+    /\ Running /\ (term > rhs.term \/ commit > rhs.commit) /\ term >= rhs.term /\ commit >= rhs.commit
+    /\ file' = [file EXCEPT ![seg] = @ \o buf \o <<[t |-> "hs", term |-> term, commit |-> commit]>>] /\ buf' = <<>>
+    /\ rhs' = [term |-> term, commit |-> commit]
     /\ ptr' = [ptr EXCEPT !.seg = seg]
-    /\ Log([op |-> "RaftHS", term |-> term])
+    /\ Log([op |-> "RaftHS", term |-> term, commit |-> commit])
     /\ UNCHANGED <<phase, seg, imm, logPtr, flushed, rlog, rtrunc, acked, nput, gcRaft, badRemoval>> /\ UNCH_REC
 
 \* compactTo(idx): the truncation point lies in the segment that holds entry idx
@@ -142,7 +143,7 @@ RECURSIVE Replay(_, _, _, _, _)
 Replay(recs, first, lg, hs, fail) ==
     IF recs = <<>> \/ fail THEN [first |-> first, log |-> lg, hs |-> hs, fail |-> fail]
     ELSE LET r == Head(recs) IN
-         IF r.t = "hs" THEN Replay(Tail(recs), first, lg, r.term, fail)
+         IF r.t = "hs" THEN Replay(Tail(recs), first, lg, [term |-> r.term, commit |-> r.commit], fail)
          ELSE IF r.t = "ent"
               THEN IF r.i > first + Len(lg)                 \* MemoryStorage.Append: missing log entry (panic)
                    THEN Replay(Tail(recs), first, lg, hs, TRUE)
@@ -158,7 +159,7 @@ Recover == /\ phase = "crashed" /\ phase' = "recovered"
                 /\ gcRaft' = (gcRaft \/ \E s \in rm : HasRaft(s))
                 /\ badRemoval' = (badRemoval \/ \E s \in rm : Unsafe(s, logPtr))
            /\ recLsm' = flushed \cup UNION {LsmIds(s) : s \in Surviving}
-           /\ LET res == Replay(AllRecs, 1, <<>>, 0, FALSE)
+           /\ LET res == Replay(AllRecs, 1, <<>>, [term |-> 0, commit |-> 0], FALSE)
               IN recLog' = res.log /\ recFirst' = res.first /\ recHS' = res.hs /\ recFail' = res.fail
            /\ UNCHANGED <<seg, buf, imm, logPtr, flushed, ptr, rlog, rtrunc, rhs, acked, nput, nops, hist>>
 
@@ -166,7 +167,8 @@ Next == \/ Put \/ Rotate \/ Flush \/ Watchdog \/ Crash \/ Recover
         \* appends extend the log, or overwrite its last entry with a higher term (conflict)
         \/ \E n \in 1..2 : RaftAppend(Len(rlog) + 1, n, IF rlog = <<>> THEN 1 ELSE rlog[Len(rlog)])
         \/ (rlog # <<>> /\ Len(rlog) > rtrunc /\ rlog[Len(rlog)] < MaxTerm /\ RaftAppend(Len(rlog), 1, rlog[Len(rlog)] + 1))
-        \/ (rhs < MaxTerm /\ RaftHS(rhs + 1))
+        \/ (rhs.term < MaxTerm /\ RaftHS(rhs.term + 1, rhs.commit))
+        \/ (rhs.commit < Len(rlog) /\ RaftHS(rhs.term, rhs.commit + 1))      \* only the commit index moves
         \/ \E idx \in {rtrunc + 1, Len(rlog)} : RaftCompact(idx)
 Spec == Init /\ [][Next]_vars
 
